@@ -74,7 +74,7 @@ def gen_single(r, i, thorough):
          "mode": r.choice(MODES[:13] + MODES[:13] + MODES), "umask": r.choice([0o022, 0o022, 0o077, 0o002, 0o027, 0]),
          "gid": r.choice([None, None, 12345, 1]),
          "data": gen_data(r), "stale": None, "unpriv": False, "entry": "direct",
-         "target_kind": r.choice(["regular"] * 5 + ["hardlink", "hardlink", "symlink"]),
+         "target_kind": r.choice(["regular"] * 5 + ["hardlink", "hardlink", "symlink"]), "name": gen_name(r),
          "inject": {"kind": "none"}}
     if r.random() < .12:
         c["stale"] = {"content": r.choice(["STALE", "", "s" * 10000]), "mode": r.choice([0o600, 0o644, 0o664])}
@@ -86,6 +86,10 @@ def gen_single(r, i, thorough):
         c["inject"] = {"kind": "fault", "at": "stat", "errno": "ENOENT", "flavour": "flush"}
     elif k < .6:
         c["inject"] = {"kind": "crash", "at": r.choice(CALLS)}
+    elif k < .68:
+        c["inject"] = {"kind": "rlimit", "k": r.choice(["zero", "below", "below", "at", "above"])}
+    elif k < .71:
+        c["inject"] = {"kind": "shortwrite"}
     if r.random() < .12:
         # a natural fault: unprivileged process, original owned by a group it is not a member of
         c["unpriv"] = True
@@ -102,6 +106,10 @@ def gen_single(r, i, thorough):
         c["gid"] = None if c["gid"] == 0 else c["gid"]
         if c["target_kind"] == "symlink":
             c["target_kind"] = "hardlink"
+        if c["inject"]["kind"] == "rlimit":
+            c["inject"] = {"kind": "none"}
+    if c["inject"]["kind"] == "rlimit" and c["unpriv"]:
+        c["unpriv"] = False
     if r.random() < .25:
         hs = [{"file": "other", "interrupted": False}, {"file": "other", "interrupted": True}]
         if c["exists"] and c["target_kind"] == "regular" and not c["unpriv"]:
@@ -119,7 +127,7 @@ def gen_two(r, i, sched=None, small=False):
         d2 = {"pat": "other\n", "reps": 2, "tail": ""}
     c = {"kind": "two", "i": i, "exists": r.random() < .85, "old": r.choice(["old\n" * 3, "", "x" * 9000]),
          "mode": r.choice(MODES[:13] + MODES[:13] + MODES), "umask": r.choice([0o022, 0o077, 0o002]), "gid": r.choice([None, 12345]),
-         "d1": d1, "d2": d2, "target_kind": r.choice(["regular"] * 4 + ["hardlink", "symlink"]),
+         "d1": d1, "d2": d2, "target_kind": r.choice(["regular"] * 4 + ["hardlink", "symlink"]), "name": gen_name(r),
          "sched": sched if sched is not None else [r.random() < .5 for _ in range(14)],
          "inject1": {"kind": "none"}, "inject2": {"kind": "none"}}
     if r.random() < .5:
@@ -144,6 +152,9 @@ def all_schedules():
 
 # ---------------------------------------------------------------------------------------------
 # implementation side (worker process, pyflyby from REPO)
+
+_REAL_WRITE = os.write
+
 
 class Gates(object):
     """Wraps os.stat/chmod/chown/rename and the temp file's open/write/close as seen from
@@ -171,7 +182,7 @@ class Gates(object):
         return {k: self.snap1(v) for k, v in self.paths.items() if k in ("target", "tmp", "tmp1", "tmp2", "calib", "alias")}
 
     def emit(self, obj):
-        os.write(self.report_fd, (json.dumps(obj) + "\n").encode())
+        _REAL_WRITE(self.report_fd, (json.dumps(obj) + "\n").encode())
 
     # -- the gate
     def call(self, name, arg, paths, thunk, on_fault=None):
@@ -239,15 +250,58 @@ class Gates(object):
                 return g.call("open", 0, [g.canon(path), mode, list(a), sorted(kw)],
                               lambda: FW(o["open"](path, mode, *a, **kw), path))
             return o["open"](path, mode, *a, **kw)
-        os.stat, os.chmod, os.chown, os.rename = w_stat, w_chmod, w_chown, w_rename
+        def w_write(fd, data):
+            # a caller that uses os.write directly gets a short count once (disk full / quota part-way)
+            if g.armed and g.inject["kind"] == "shortwrite" and not g.done_fault and len(data) > 1:
+                g.done_fault = True
+                return _REAL_WRITE(fd, data[:len(data) // 2])
+            return _REAL_WRITE(fd, data)
+        os.stat, os.chmod, os.chown, os.rename, os.write = w_stat, w_chmod, w_chown, w_rename, w_write
         F.open = w_open
+
+
+NAME_MAX = 255
+
+
+def target_name(c):
+    return c.get("name") or "t.py"
+
+
+def gen_name(r):
+    """basename of the target: its byte length is part of the case (the temp name appends ".tmp.<pid>")"""
+    k = r.random()
+    if k < .6:
+        return "t.py"
+    n = r.choice([1, 4, 100, 137, 138, 139, 140, 141, 142, 143, 144, 145, 200, 240, 243, 244, 245, 248, 250, 255])
+    # (pyflyby's Filename accepts [a-zA-Z0-9_=+{}/.,~@-] only: non-ASCII names never reach the writer)
+    body = "".join(r.choice("t0_=+{},@-") if r.random() < .2 else "t" for _ in range(max(0, n - 3)))
+    return (body + ".py") if n >= 4 else "t" * n
+
+
+def name_too_long(c, pid):
+    """open() of <target>.tmp.<pid> fails with ENAMETOOLONG"""
+    return len(("%s.tmp.%d" % (target_name(c), pid)).encode()) > NAME_MAX
+
+
+def norm_listing(c, listing, pids):
+    out = []
+    nm = target_name(c)
+    for x in listing:
+        if x == nm:
+            x = "t.py"
+        elif x.startswith(nm + ".tmp."):
+            x = "t.py" + x[len(nm):]
+        for tag, pid in pids:
+            x = x.replace(str(pid), tag)
+        out.append(x)
+    return out
 
 
 def _setup_tree(c, root):
     """target t.py: absent / regular / regular with a second hard link (alias.py) / symlink to alias.py"""
     os.umask(0)
     os.chmod(root, 0o777)
-    target = os.path.join(root, "t.py")
+    target = os.path.join(root, target_name(c))
     alias = os.path.join(root, "alias.py")
     by = os.path.join(root, "bystander.py")
     with open(by, "w") as f:
@@ -293,7 +347,10 @@ def do_history(c, root, target):
             finally:
                 os.rename = real
         else:
-            F.atomic_write_file(F.Filename(path), text)
+            try:
+                F.atomic_write_file(F.Filename(path), text)
+            except OSError:
+                pass                            # (a target whose temp name does not fit NAME_MAX)
 
 
 def _child_writer(c, root, target, data_text, inject, report_fd, ctrl_fd, tmpkey="tmp", stale=None, entry="direct",
@@ -322,6 +379,9 @@ def _child_writer(c, root, target, data_text, inject, report_fd, ctrl_fd, tmpkey
             os.setgroups([])
             os.setgid(65534)
             os.setuid(65534)
+        if stale and name_too_long(c, pid):
+            stale = None                            # such a temp file cannot exist
+            contents.pop("stale", None)
         if stale:
             fd = os.open(tmp, os.O_WRONLY | os.O_CREAT, 0o666)
             os.write(fd, stale["content"].encode())
@@ -338,6 +398,15 @@ def _child_writer(c, root, target, data_text, inject, report_fd, ctrl_fd, tmpkey
             g.armed = False
             g.emit({"calib_done": True})
         g.inject, g.ctrl_fd = inject, ctrl_fd
+        if inject["kind"] == "rlimit":
+            # a real resource fault: the file-size limit is reached part-way (SIGXFSZ ignored: write returns
+            # short, then fails with EFBIG)
+            import resource
+            import signal
+            signal.signal(signal.SIGXFSZ, signal.SIG_IGN)
+            size = len((data_text or "").encode())
+            k = {"zero": 0, "below": size // 2, "at": size, "above": size + 7}[inject["k"]]
+            resource.setrlimit(resource.RLIMIT_FSIZE, (k, resource.getrlimit(resource.RLIMIT_FSIZE)[1]))
         outcome = "ok"
         if entry == "direct":
             g.armed = True
@@ -412,6 +481,10 @@ def snap_path(path, contents, opener=open, statf=None):
         lst = os.lstat(path)
     except FileNotFoundError:
         return None
+    except OSError as e:
+        if e.errno == errno.ENAMETOOLONG:
+            return None                     # such a name cannot exist
+        raise
     islink = stat.S_ISLNK(lst.st_mode)
     try:
         st = (statf or os.stat)(path) if islink else lst
@@ -462,7 +535,7 @@ def impl_single(c):
         after = _parent_snap(dict({"target": target, "tmp": tmp, "bystander": by}, **alias_path(c, root)), contents)
         listing = sorted(os.listdir(root))
         return {"pid": pid, "lines": lines, "exit": os.waitstatus_to_exitcode(status), "before": before, "after": after,
-                "listing": [x.replace(str(pid), "PID") for x in listing]}
+                "listing": norm_listing(c, listing, [("PID", pid)])}
     finally:
         os.umask(old_umask)
         shutil.rmtree(root, ignore_errors=True)
@@ -573,8 +646,7 @@ def _impl_two_inner(c, pre=None):
             os.close(k["rfd"])
         final = _parent_snap(dict(paths, bystander=by), contents)
         listing = sorted(os.listdir(root))
-        for i, k in enumerate(kids):
-            listing = [x.replace(str(k["pid"]), "PID%d" % (i + 1)) for x in listing]
+        listing = norm_listing(c, listing, [("PID%d" % (i + 1), k["pid"]) for i, k in enumerate(kids)])
         return {"pids": [k["pid"] for k in kids], "hello": [k["hello"] for k in kids], "calib": [k["calib"] for k in kids],
                 "done": [k["done"] for k in kids], "initial": initial, "steps": steps, "final": final, "listing": listing}
     finally:
@@ -621,7 +693,7 @@ def c_fault(inj, name):
     return "NoFault"
 
 
-def c_prog(spec, c1len, inj, flavour_map=True):
+def c_prog(spec, c1len, inj, flavour_map=True, open_fails=False):
     """[IOpen; IWrite c1; IWrite c2; IClose; IStat; IChmod; IChown; IRename] with the fault placed
     where the harness's Python-level injection bites (a failing close = the flush write fails, or
     close(2) itself fails after the flush)."""
@@ -633,7 +705,7 @@ def c_prog(spec, c1len, inj, flavour_map=True):
     meta = [("IChmod", c_fault(inj, "chmod")), ("IChown", c_fault(inj, "chown"))]
     if variant_term() == "Fixed2":
         meta.reverse()
-    items = [("IOpen", c_fault(inj, "open")), ("IWrite %s" % c1, c_fault(inj, "write")), ("IWrite %s" % c2, close_flush),
+    items = [("IOpen", "FaultOther" if open_fails else c_fault(inj, "open")), ("IWrite %s" % c1, c_fault(inj, "write")), ("IWrite %s" % c2, close_flush),
              ("IClose", close_close), ("IStat", c_fault(inj, "stat"))] + meta + [("IRename", c_fault(inj, "rename"))]
     return items
 
@@ -686,7 +758,7 @@ def single_exprs(c, im):
     else:
         spec = c["data"]
         c1len = calib_c1len(lines)
-    items = c_prog(spec, c1len, c["inject"])
+    items = c_prog(spec, c1len, c["inject"], open_fails=name_too_long(c, im["pid"]))
     temps = []
     st = hello["snap"].get("tmp")
     if st is not None:
@@ -705,8 +777,8 @@ def two_exprs(c, im):
     h1, h2 = im["hello"]
     l1 = calib_c1len(im["calib"][0])
     l2 = calib_c1len(im["calib"][1])
-    it1 = c_prog(c["d1"], l1, c["inject1"])
-    it2 = c_prog(c["d2"], l2, c["inject2"])
+    it1 = c_prog(c["d1"], l1, c["inject1"], open_fails=name_too_long(c, im["pids"][0]))
+    it2 = c_prog(c["d2"], l2, c["inject2"], open_fails=name_too_long(c, im["pids"][1]))
     # model-level schedule reconstructed from the real call order (see group_model_steps)
     cur = {"L": 0, "R": 0}
     sched = []
@@ -819,7 +891,7 @@ def oracle_single(c, im):
     else:
         ok = done["done"] in ("ok", "exit:0")
         fw = final is not None and "new" in final.get("which", [])
-        if c["inject"]["kind"] == "none" and not (ok and fw and im["after"]["tmp"] is None):
+        if c["inject"]["kind"] == "none" and not name_too_long(c, im["pid"]) and not (ok and fw and im["after"]["tmp"] is None):
             bad.append(("nofault_returns", "fault-free call: outcome %r, target %r, temp %r" % (done["done"], final, im["after"]["tmp"])))
         if ok and not fw and c["entry"] == "direct":
             bad.append(("returns_iff_replaced", "call returned normally but the target does not hold the new text: %r" % (final,)))
@@ -878,7 +950,8 @@ def oracle_two(c, im):
     fin = im["final"]["target"]
     if any(oks) and not (fin and ("d1" in fin["which"] or "d2" in fin["which"])):
         bad.append(("two_writers", "a writer returned normally but the final target is %r" % (fin,)))
-    if c["inject1"]["kind"] == "none" and c["inject2"]["kind"] == "none" and not all(oks):
+    if c["inject1"]["kind"] == "none" and c["inject2"]["kind"] == "none" and not all(oks) \
+       and not any(name_too_long(c, p) for p in im["pids"]):
         bad.append(("two_writers", "fault-free writers did not both return normally: %r" % (im["done"],)))
     for s in im["steps"]:
         if not expected_paths(s["ev"], s["paths"], "tmp1" if s["side"] == "L" else "tmp2"):
@@ -1126,6 +1199,8 @@ def evaluate(ctx, cases, impl):
     for ci, (c, im) in enumerate(zip(cases, impl)):
         if "__exc__" in im or "__timeout__" in im:
             continue
+        if c["kind"] == "single" and c["inject"]["kind"] == "rlimit":
+            continue                    # oracle only: where the io layer's retries stop is not modelled
         if c["kind"] == "single":
             ex = single_exprs(c, im)
             if ex is None:
@@ -1165,7 +1240,7 @@ def evaluate(ctx, cases, impl):
                 compare_single(ctx, c, im, per[ci], res[ci]["main"], res[ci]["calib"])
             else:
                 compare_two(ctx, c, im, per[ci], res[ci]["main"])
-        else:
+        elif not (c["kind"] == "single" and c["inject"]["kind"] == "rlimit"):
             ctx.disagreement("no model expression (unexpected call order)", c, im, None)
         ctx.bump(classify(c))
         nontriv = c["kind"] == "two" or c["inject"]["kind"] != "none" or c.get("unpriv") or c.get("stale")
@@ -1184,7 +1259,7 @@ def run(ctx):
     n_strace = 40 if thorough else 6
     ctx.coverage["rule"] = (
         "single-writer cases (target present/absent x 17 modes x umasks x sizes 0..30 kB around the 8192-byte buffer x "
-        "stale temp file x {no fault, OSError at each of the 7 calls (5 errnos, ENOENT at stat), os._exit before each call, "
+        "stale temp file x {no fault, OSError at each of the 7 calls (5 errnos, ENOENT at stat), os._exit before each call, RLIMIT_FSIZE reached part-way (oracle only), a short os.write, "
         "natural EPERM of an unprivileged chown} x {direct call, bin/tidy-imports -r in-process}); two real processes stepped "
         "call by call through a schedule (random in quick; all C(14,7)=3432 in thorough) with optional faults; the unpatched "
         "tools under strace with syscall errors injected by strace; non-trivial = fault, crash, stale temp, unprivileged or "
